@@ -20,6 +20,9 @@ package operations
 //@ func unmarshalBody
 //@   trusted json.Unmarshal into the freshly allocated body struct; panics on undecodable bytes (excluded by decodable(op) at the callers)
 //@   mode math
+//@   props C14
+//@   panic-assumed-unreachable
+//@   checks[decoded-once-by-the-standard-decoder-into-the-given-body] !c.(string) && !c.([]byte) ==> G.unmarshalCalls == old(G.unmarshalCalls) + 1 && G.unmarshalInto == c && G.unmarshalLen == len(b)
 //@   ensures result == c
 //@   modifies TransactionBody.* @ c, errorBody.* @ c, increaseBody.* @ c, PutBody.* @ c, RemoveBody.* @ c, InsertBody.* @ c, DeleteBody.* @ c, UpdateBody.* @ c, DocPutInObjBody.* @ c, DocRemoveInObjectBody.* @ c, DocInsertToArrayBody.* @ c, DocDeleteInArrayBody.* @ c, DocUpdateInArrayBody.* @ c
 
